@@ -11,7 +11,9 @@ RULE = ("cases are (alias, key length in {16,24,32}, key, message, second key, d
         "length 0..80 is enumerated for 3 key lengths, Hypothesis adds random lengths up to 5000 and contract breaches (bad "
         "key lengths, declared message/cipher length mismatches, bad constructor arguments). Oracles: round-trip, length law "
         "16+16*(len//16+1), two encryptions differ (IV and body) and up to 1100 encryptions of one (key, message) in one process are pairwise distinct, wrong key raises or returns != m, an independent "
-        "AES-CBC/PKCS7 decryption written in the harness agrees, breaches raise ValueError. Non-trivial = message length >= 1 "
+        "AES-CBC/PKCS7 decryption written in the harness agrees, histories of Encrypt/Decrypt calls with two or three keys on ONE cipher object "
+        "(all orders up to depth 3-4 over {Encrypt,Decrypt}x{k0,k1} plus random ones up to 12 calls; each produced ciphertext is decrypted by "
+        "the independent implementation under the key that was passed, each decryption is compared with what was encrypted), breaches raise ValueError. Non-trivial = message length >= 1 "
         "that is a multiple of 16, or > 16, or a contract-breach case; distinct = distinct case.")
 ASSUMPTIONS = ["the `cryptography` package's AES/CBC/PKCS7 primitives are trusted as the independent reference",
                "os.urandom is replaced by a seeded non-repeating DRBG inside the check process"]
@@ -31,6 +33,15 @@ def ref_decrypt(key, ct):
     p = d.update(body) + d.finalize()
     u = padding.PKCS7(128).unpadder()
     return u.update(p) + u.finalize()
+
+
+def ref_encrypt(key, iv, m):
+    from cryptography.hazmat.primitives.ciphers import Cipher, algorithms, modes
+    from cryptography.hazmat.primitives import padding
+    pd = padding.PKCS7(128).padder()
+    p = pd.update(m) + pd.finalize()
+    e = Cipher(algorithms.AES(key), modes.CBC(iv)).encryptor()
+    return iv + e.update(p) + e.finalize()
 
 
 def expect_value_error(fn, what):
@@ -93,6 +104,53 @@ def run_case(case):
                 kg2 = ske.KeyGen()
                 if kg == kg2:
                     raise Violation("KeyGen returned the same key twice", "keygen:fresh")
+            elif kind == "history":
+                # ONE cipher object used with several keys in an arbitrary order of Encrypt / Decrypt calls; every ciphertext it
+                # produces is checked by the independent decryption under the key that was passed, every decryption against the
+                # message that was encrypted (ciphertexts 0..len(keys)-1 come from the independent encryption)
+                import hashlib
+                keys = [B(k) for k in case["keys"]]
+                msgs = [B(m) for m in case["msgs"]]
+                ske = cls(key_length=len(keys[0]))
+                cts = [(i, msgs[i % len(msgs)], ref_encrypt(k, hashlib.sha256(b"iv%d" % i + k).digest()[:16], msgs[i % len(msgs)]))
+                       for i, k in enumerate(keys)]
+                for n_op, (op, ki, j) in enumerate(case["ops"]):
+                    ki %= len(keys)
+                    if op == "enc":
+                        m = msgs[j % len(msgs)]
+                        c = ske.Encrypt(keys[ki], m)
+                        try:
+                            r = ref_decrypt(keys[ki], c)
+                        except Exception:
+                            r = None
+                        if r != m:
+                            raise Violation("operation #%d Encrypt(key %d, m): the independent AES-CBC/PKCS7 decryption under that key does "
+                                            "not return m (history %r)" % (n_op, ki, case["ops"][:n_op + 1]), "history:encrypt_under_other_key")
+                        for kj, other in enumerate(keys):
+                            if kj != ki:
+                                try:
+                                    r2 = ref_decrypt(other, c)
+                                except Exception:
+                                    r2 = None
+                                if r2 == m:
+                                    raise Violation("operation #%d: the ciphertext made under key %d decrypts to m under key %d" % (n_op, ki, kj),
+                                                    "history:wrongkey_decrypts")
+                        cts.append((ki, m, c))
+                    else:
+                        cki, m, c = cts[j % len(cts)]
+                        try:
+                            r = ske.Decrypt(keys[ki], c)
+                        except Exception as e:
+                            if cki == ki:
+                                raise Violation("operation #%d Decrypt(key %d, ciphertext made under key %d) raised %s: %s (history %r)"
+                                                % (n_op, ki, cki, type(e).__name__, e, case["ops"][:n_op + 1]), "history:decrypt_fails")
+                            continue
+                        if cki == ki and r != m:
+                            raise Violation("operation #%d Decrypt(key %d, .) of a ciphertext made under that key does not return the message "
+                                            "(history %r)" % (n_op, ki, case["ops"][:n_op + 1]), "history:roundtrip")
+                        if cki != ki and r == m:
+                            raise Violation("operation #%d Decrypt under key %d returned the message encrypted under key %d (history %r)"
+                                            % (n_op, ki, cki, case["ops"][:n_op + 1]), "history:wrongkey")
             elif kind == "fresh_many":
                 # one (key, message) encrypted many times in one process: all ciphertexts and all IVs pairwise distinct
                 key, m = B(case["key"]), B(case["m"])
@@ -145,7 +203,7 @@ def run_case(case):
 
 @st.composite
 def st_case(draw):
-    kind = draw(st.sampled_from(["roundtrip"] * 6 + ["fresh_many", "bad_ctor_keylen", "bad_ctor_cipherlen", "bad_key", "bad_msglen",
+    kind = draw(st.sampled_from(["roundtrip"] * 6 + ["history"] * 3 + ["fresh_many", "bad_ctor_keylen", "bad_ctor_cipherlen", "bad_key", "bad_msglen",
                                                     "bad_cipherlen", "bad_alias"]))
     c = {"kind": kind, "alias": draw(st.sampled_from(ALIASES)), "seed": draw(st.integers(0, 2 ** 32))}
     klen = draw(st.sampled_from([16, 24, 32]))
@@ -157,6 +215,12 @@ def st_case(draw):
                               st.just(bytes([key[0] ^ 1]) + key[1:]), st.just(key[:-1] + bytes([key[-1] ^ 0x80]))))
         c.update(key=key.hex(), key2=key2.hex(), m=draw(st.binary(min_size=mlen, max_size=mlen)).hex(),
                  declare=draw(st.sampled_from([None, "both", "message", "cipher"])))
+    elif kind == "history":
+        nk = draw(st.integers(2, 3))
+        keys = draw(st.lists(st.binary(min_size=klen, max_size=klen), min_size=nk, max_size=nk, unique=True))
+        c.update(keys=[k.hex() for k in keys],
+                 msgs=[draw(st.binary(min_size=n, max_size=n)).hex() for n in draw(st.lists(st.sampled_from([0, 1, 15, 16, 17, 32, 40]), min_size=1, max_size=3))],
+                 ops=draw(st.lists(st.tuples(st.sampled_from(["enc", "dec"]), st.integers(0, 2), st.integers(0, 7)).map(list), min_size=3, max_size=12)))
     elif kind == "fresh_many":
         c.update(key=draw(st.binary(min_size=klen, max_size=klen)).hex(), m=draw(st.binary(max_size=40)).hex(),
                  count=draw(st.sampled_from([300, 520, 1100])))
@@ -195,6 +259,11 @@ def classes_of(c):
         n = len(c["m"]) // 2
         out.append("mlen:" + ("0" if n == 0 else "aligned" if n % 16 == 0 else "<16" if n < 16 else "unaligned>16"))
         out.append("klen:%d" % (len(c["key"]) // 2))
+    if c["kind"] == "history":
+        ops = [o[0] for o in c["ops"]]
+        out.append("history:keys=%d" % len(c["keys"]))
+        if any(a == "dec" and b == "enc" for a, b in zip(ops, ops[1:])):
+            out.append("history:encrypt_after_decrypt")
     return out
 
 
@@ -216,6 +285,20 @@ def _length_cases(tier, seed):
                 m = (hashlib.sha256(h + b"m").digest() * 3)[:n]
                 yield {"kind": "roundtrip", "alias": ALIASES[(n + r) % len(ALIASES)], "seed": int.from_bytes(h[:4], "big"),
                        "key": key.hex(), "key2": key2.hex(), "m": m.hex(), "declare": [None, "both", "message", "cipher"][(n + r) % 4]}
+    # every order of up to 4 operations over {Encrypt, Decrypt} x {key 0, key 1} on one object, followed by a probe of both keys
+    import itertools
+    alphabet = [("enc", 0), ("enc", 1), ("dec", 0), ("dec", 1)]
+    for klen in (16, 24, 32):
+        ks = [(hashlib.sha256(b"hk%d/%d/%d" % (seed, klen, i)).digest() * 2)[:klen].hex() for i in range(2)]
+        for depth in (1, 2, 3, 4) if (tier != "quick" or klen == 16) else (1, 2, 3):
+            for word in itertools.product(alphabet, repeat=depth):
+                ops = []
+                for n_op, (op, ki) in enumerate(word):
+                    ops.append([op, ki, ki if op == "dec" else n_op])   # decrypt the reference ciphertext of that key
+                # probes: old ciphertexts still decrypt, new encryptions are under the key passed
+                ops += [["dec", 0, 0], ["dec", 1, 1], ["enc", 0, 0], ["enc", 1, 1], ["dec", 0, 1], ["dec", 1, 0]]
+                yield {"kind": "history", "alias": "AES-CBC", "seed": seed + depth, "keys": ks, "msgs": [b"first message".hex(), (b"x" * 32).hex()],
+                       "ops": ops}
     for klen in (16, 24, 32):
         yield {"kind": "fresh_many", "alias": "AES-CBC", "seed": seed + klen, "key": (hashlib.sha256(b"fm%d" % klen).digest() * 2)[:klen].hex(),
                "m": b"same message".hex(), "count": 1100}
